@@ -242,8 +242,10 @@ Get(pv, p) == IF p = "f" THEN pv.f ELSE IF p = "d" THEN pv.d ELSE IF p = "x" THE
 (* tree and the rebased tree.                                               *)
 RebaseLawsVerdict(pvOld, pvOldBase, pvNewBase, pvNew, accept) ==
   LET o == LeafView(pvOld)  ob == LeafView(pvOldBase)  nb == LeafView(pvNewBase)  n == LeafView(pvNew)
-      hidden == Subsumes(pvOld) \/ Subsumes(pvOldBase) \/ Subsumes(pvNewBase) \/ Subsumes(pvNew)
-      Judged == IF hidden THEN {"f", "d"} ELSE LeafPaths
+      \* a file/directory conflict at d in one of the INPUT trees: the leaf view of d is not meaningful there
+      \* (directory terms count as "no file"), only f is judged; if only the rebased tree has it, f and d are
+      inHidden == Subsumes(pvOld) \/ Subsumes(pvOldBase) \/ Subsumes(pvNewBase)
+      Judged == IF inHidden THEN {"f"} ELSE IF Subsumes(pvNew) THEN {"f", "d"} ELSE LeafPaths
       Law1(p) == NormEq(Get(o, p), Get(ob, p), accept) => NormEq(Get(n, p), Get(nb, p), accept)
       Law2(p) == NormEq(Get(ob, p), Get(nb, p), accept) => NormEq(Get(n, p), Get(o, p), accept)
   IN IF \E p \in Judged : ~Law1(p) THEN "UnchangedPathTakesNewParents"
